@@ -45,7 +45,10 @@ META = {
             "directory / new path without extension / in place), bundle on/off, fail-fast on/off; every scenario is run "
             "with and without its faulty files, in two separate processes; non-trivial = at least one faulty file is "
             "collected next to at least one good file, or the input is a single file; distinct by scenario id",
-    "assumptions": ["reads_no_output: no transformation reads a path that the batch writes (false for in-place runs with "
+    "assumptions": ["stateless: the result of a file is a function of the file and the file system only - independent of "
+                    "the processing order and of earlier runs on the same thread (C11_stateless_run); checked on the real "
+                    "code by forcing several orders and by running trees one after the other on one thread",
+                    "reads_no_output: no transformation reads a path that the batch writes (false for in-place runs with "
                     "bundling: recorded finding)",
                     "OS behaviour is exercised (real temp dirs under /tmp), not modelled"],
 }
@@ -72,9 +75,20 @@ KNOWN_TEXT = {
 }
 
 
+PATH_NAMES = {}
+
+
 def cpath(p):
-    comps = [x for x in p.split("/") if x not in ("", ".")]
-    return "[" + "; ".join('comp "%s"' % c.encode("utf-8").hex() for c in comps) + "]"
+    """paths are defined once in the preamble (components as hex of their UTF-8 bytes) and used by name"""
+    comps = tuple(x for x in p.split("/") if x not in ("", "."))
+    if comps not in PATH_NAMES:
+        PATH_NAMES[comps] = "p%d" % len(PATH_NAMES)
+    return PATH_NAMES[comps]
+
+
+def path_definitions():
+    return "".join("Definition %s : path := [%s].\n" % (
+        name, "; ".join('comp "%s"' % c.encode("utf-8").hex() for c in comps)) for comps, name in PATH_NAMES.items())
 
 
 def lua_ext(path):
@@ -219,8 +233,9 @@ def unwritable(rec, output, run):
     return any("/".join(parts[:k]) in run["before"] for k in range(1, len(parts)))
 
 
-def coq_case(run, rec):
-    """Coq term of type c11_case for a memory run"""
+def coq_case(run, rec, reference=None):
+    """Coq term of type c11_case for a memory run; with `reference`, the per-file outcomes given to the
+    model are those of ANOTHER run of the same tree (so the model run checks order / history independence)"""
     blobs = {}
 
     def blob(h):
@@ -230,10 +245,11 @@ def coq_case(run, rec):
     out = "None" if rec["output"] is None else "(Some %s)" % cpath(rec["output"])
     if "items" in run:
         items = "(Some [%s])" % "; ".join("(%s, %s)" % (cpath(it["source"]), cpath(it["output"])) for it in run["items"])
+        src = reference or run
         outcomes = "; ".join("(%s, %s)" % (cpath(it["source"]),
-                                           "Some %s" % blob(run["after"][it["output"]])
-                                           if it["status"] == "ok" and it["output"] in run["after"] else "None")
-                             for it in run["items"])
+                                           "Some %s" % blob(src["after"][it["output"]])
+                                           if it["status"] == "ok" and it["output"] in src["after"] else "None")
+                             for it in src["items"])
     else:
         items, outcomes = "None", ""
     after = "; ".join("(%s, %s)" % (cpath(p), blob(h)) for p, h in sorted(run["after"].items()))
@@ -322,6 +338,86 @@ def check_stream(ctx, name, ra, rb, disk, cases, case_index):
     return nontrivial, samples
 
 
+LETTERS = ("a", "b", "c")
+
+
+def rc_full(files, run):
+    """a run of the `.luaurc` stream in the shape the model glue expects"""
+    return {"before": files, "after": dict(files, **run["out"]), "items": run["items"]}
+
+
+def check_luaurc_stream(ctx, ra, rb, cases, case_index):
+    """nested `.luaurc` files overriding an alias: every file uses its closest one, whatever the order in
+    which the files are processed and whatever ran before on the same thread"""
+    nontrivial = 0
+    samples = []
+    for a, b in zip(ra, rb):
+        replay = {"scenario": a["id"], "config": a["config"], "luaurc_files": a["trees"],
+                  "replay": "harness/target/release/dl-c11 luaurc --seed %d --n %d  (scenario %d)" % (
+                      ctx.seed, a["id"] + 1, a["id"])}
+        if a != b:
+            ctx.violation("two identical runs in separate processes gave different results (.luaurc stream)", replay,
+                          key="nondeterministic:luaurc:%d" % a["id"])
+        nested = any(len(t) > 1 for t in a["trees"])
+        nontrivial += nested
+        for which in (0, 1):
+            expected = a["expected"][which]
+            files = a["files"][which]
+            runs = {name[2:]: run for name, run in a["orders"].items() if name.startswith("%d:" % which)}
+            if which == 0:
+                runs["first of a sequence on one thread"] = a["sequence"][0]
+                runs["after two other runs on the same thread"] = a["sequence"][3]
+            else:
+                runs["after another tree on the same thread"] = a["sequence"][1]
+                runs["second time in a row on the same thread"] = a["sequence"][2]
+            reference = runs["collect"]
+            for name, run in runs.items():
+                r = dict(replay, tree=which, run=name)
+                if "out" not in run:
+                    ctx.violation("process failed or panicked on a tree with .luaurc files", dict(r, result=run),
+                                  key="luaurc-process:%d" % a["id"])
+                    continue
+                status = {it["source"]: it for it in run["items"]}
+                for source, letter in expected.items():
+                    it = status.get(source)
+                    out_path = "out/" + source[len("src/"):]
+                    text = bytes.fromhex(run["out"].get(out_path, "")).decode("utf-8", "replace")
+                    if letter is None and a["config"] == "convert-require":
+                        # convert_require leaves a require it cannot resolve as it is (it only warns)
+                        if it is None or it["status"] != "ok" or "@Lib/value" not in text:
+                            ctx.violation("a require whose alias no .luaurc defines was not left alone by convert_require",
+                                          dict(r, source=source, item=it, written=text[:120]),
+                                          key="luaurc-unresolved:%d" % a["id"])
+                        continue
+                    if letter is None:
+                        if it is None or it["status"] != "err" or named_path(it["error"]) != source:
+                            ctx.violation("a file whose alias no .luaurc defines is not reported with its path",
+                                          dict(r, source=source, item=it), key="luaurc-unresolved:%d" % a["id"])
+                        continue
+                    used = [l for l in LETTERS if "LIB_%s" % l.upper() in text or "libs_%s" % l in text]
+                    if it is None or it["status"] != "ok" or used != [letter]:
+                        ctx.violation("a file does not use the alias of its CLOSEST .luaurc",
+                                      dict(r, source=source, expected_library=letter, used=used,
+                                           error=(it or {}).get("error", "")[:200]),
+                                      key="luaurc-closest:%d:%s" % (a["id"], name))
+                if run["out"] != reference["out"]:
+                    diff = sorted(p for p in set(run["out"]) | set(reference["out"]) if run["out"].get(p) != reference["out"].get(p))
+                    what = ("the outputs depend on the order in which the files are processed"
+                            if name in ("ascending", "descending", "shuffled", "shallow-first", "deep-first")
+                            else "a run is influenced by what was processed before on the same thread")
+                    ctx.violation(what, dict(r, differing_outputs=diff[:6]), key="luaurc-%s:%d" % (name.split()[0], a["id"]))
+                # the model, with the outcomes of the reference run: order / history independence
+                if name in ("shallow-first", "deep-first", "second time in a row on the same thread",
+                            "after another tree on the same thread", "after two other runs on the same thread"):
+                    case_index[len(cases)] = ("luaurc", a["id"], "%d:%s" % (which, name), r)
+                    cases.append((len(cases), coq_case(rc_full(files, run),
+                                                       {"input": "src", "output": "out", "fail_fast": False},
+                                                       reference=rc_full(files, reference))))
+        if nested and len(samples) < 2:
+            samples.append({"scenario": a["id"], "config": a["config"], "luaurc": a["trees"][0], "expected": a["expected"][0]})
+    return nontrivial, samples
+
+
 def run(ctx):
     C.build_harness("dl-c11")
     proofs_ok = C.proof_gate(ctx, extra_targets=["Model/BatchCheck.vo"])
@@ -354,7 +450,16 @@ def run(ctx):
     ctx.stream("real temporary directories: the same oracles, plus invalid UTF-8, directory named *.lua, unwritable destination",
                n_disk, nt, samples)
 
-    bad = C.run_coq_cases(ctx.prop, PREAMBLE, cases, chunk=max(10, len(cases) // (2 * C.NPROC) + 1))
+    n_rc = 200 if quick else 3000
+    ra, rb = two_runs(["luaurc", "--seed", str(ctx.seed), "--n", str(n_rc)])
+    if len(ra) != n_rc or len(rb) != n_rc:
+        raise C.CheckBroken(".luaurc stream: expected %d scenarios, got %d / %d" % (n_rc, len(ra), len(rb)))
+    nt, samples = check_luaurc_stream(ctx, ra, rb, cases, case_index)
+    ctx.stream("nested .luaurc aliases (bundle path/luau, convert_require): 6 processing orders per tree, 4 runs in "
+               "sequence on one thread, closest configuration wins", n_rc, nt, samples,
+               runs_per_scenario=16)
+
+    bad = C.run_coq_cases(ctx.prop, PREAMBLE + path_definitions(), cases, chunk=max(10, len(cases) // (2 * C.NPROC) + 1))
     ctx.stream("collect_work and final files: Model/Batch.v vs darklua_core::process (memory)", len(cases),
                sum(1 for k in case_index.values() if k[2] == "full"), [], mismatches=len(bad))
     if bad and not ctx.violations:
